@@ -413,6 +413,11 @@ End Pool.
 
 Arguments mkConn {cstate}.
 Arguments mkSt {cstate}.
+Arguments c_key {cstate}. Arguments c_stream {cstate}. Arguments c_st {cstate}. Arguments c_lock {cstate}.
+Arguments s_conns {cstate}. Arguments s_free {cstate}. Arguments s_objs {cstate}. Arguments s_nsid {cstate}.
+Arguments s_kept {cstate}. Arguments s_thr {cstate}. Arguments s_log {cstate}. Arguments s_tags {cstate}.
+Arguments thr {cstate}. Arguments all_done {cstate}. Arguments chk_no_panic {cstate}.
+Arguments chk_right_stream {cstate}. Arguments chk_complete_most_once {cstate}. Arguments chk_complete_once_final {cstate}.
 
 (* ================================================================ concrete instances
    Exact for the harness' packet alphabet: sequence numbers far from the 2^32 wrap (so that
